@@ -65,6 +65,47 @@ def prqlc_bin():
     return _BIN["bin"]
 
 
+def errdump_bin():
+    """Build (incrementally) the harness tools/errdump against the working tree: prqlc::compile's ErrorMessages as JSON - the CLI prints only the rendered text.
+    Its sources are instantiated under <repo>/target/verif-errdump (build output of the tree it is built from, removed with it)."""
+    if "errdump" in _BIN:
+        return _BIN["errdump"]
+    here = os.path.join(os.path.dirname(os.path.abspath(__file__)), "errdump")
+    out = os.path.join(REPO, "target", "verif-errdump")
+    os.makedirs(os.path.join(out, "crate", "src"), exist_ok=True)
+
+    def put(path, text):
+        if not os.path.exists(path) or open(path).read() != text:
+            open(path, "w").write(text)
+    put(os.path.join(out, "crate", "Cargo.toml"), open(os.path.join(here, "Cargo.toml")).read().replace("@REPO@", REPO))
+    put(os.path.join(out, "crate", "src", "main.rs"), open(os.path.join(here, "src", "main.rs")).read())
+    put(os.path.join(out, "crate", "Cargo.lock"), open(os.path.join(REPO, "Cargo.lock")).read())
+    env = dict(os.environ, CARGO_NET_OFFLINE="true", CARGO_TARGET_DIR=out)
+    env.pop("RUST_BACKTRACE", None)
+    r = subprocess.run(["cargo", "build", "--offline", "-q"], cwd=os.path.join(out, "crate"), env=env, capture_output=True, text=True)
+    if r.returncode != 0:
+        raise RuntimeError("cargo build of the errdump harness failed: " + r.stderr[-2000:])
+    _BIN["errdump"] = os.path.join(out, "debug", "verif-errdump")
+    return _BIN["errdump"]
+
+
+def compile_errors(prql, target=None):
+    """prqlc::compile on the real code: ('ok', sql) | ('errors', [ {reason, span, location, display, ..} ]) | ('panic', text)."""
+    import tempfile
+    with tempfile.NamedTemporaryFile("w", suffix=".prql", delete=False, encoding="utf-8") as f:
+        f.write(prql)
+    try:
+        r = subprocess.run([errdump_bin(), f.name] + ([target] if target else []), capture_output=True, text=True, env=dict(os.environ, RUST_BACKTRACE="0", NO_COLOR="1"), timeout=60)
+    finally:
+        os.unlink(f.name)
+    if r.returncode != 0:
+        return "panic", (r.stderr + r.stdout)[:600]
+    doc = json.loads(r.stdout)
+    if "ok" in doc:
+        return "ok", doc["ok"]
+    return "errors", doc["inner"]
+
+
 def compile_prql(prql, target=None, fmt=False):
     """(ok, text) from the real compiler; panics are reported as ok=False with 'PANIC' in text."""
     env = dict(os.environ, RUST_BACKTRACE="0", NO_COLOR="1")
